@@ -12,12 +12,17 @@ package main
 //	c  AddEntityConstraint      (typed constraint, every change)
 //	uc AddUntypedEntityConstraint (untyped constraint, every change)
 //
-// plus two commit actions per transaction (ctx.AddCommitAction, one registered before and one after
-// the operations) and one tx-complete listener (db.AddTxCompleteListener).  Every delivery is
-// recorded as
+// plus one tx-complete listener (db.AddTxCompleteListener) and, per transaction, the commit actions and
+// pre-commit actions of the transaction's HOOK PROGRAM (one token per transaction in the HOOKS section
+// of the case line, see c08Exec): registrations on the context object before Db.Update / Db.Batch is
+// called, inside the function, and inside nested db.Update(ctx, ..) / db.Batch(ctx, ..) calls that join
+// the running transaction.  Every delivery is recorded as
 //
 //	LS:<style><s|a>:<store>:<change the listener was registered for>:<hex id>:<state digest>
 //	LS:c|uc:<store>:<change of the event>:<hex id>:<state digest>:p<parent flag>
+//	CA:<label>:<n>   executions of the commit action registered at program position <label>
+//	PA:<label>:<n>   executions of the pre-commit action <label>
+//	TC:<n>           executions of the tx-complete listener
 //
 // where the state digest lists the declared field values of the entity the listener received
 // (FinalState for create/update, InitialState for delete).  Asynchronous deliveries are awaited.
@@ -47,6 +52,8 @@ type c08Db struct {
 	nAsync  int            // asynchronous listener deliveries seen
 	evCount map[string]int // "store/C" -> events seen by the (synchronous) typed constraint
 	ca      int            // commit action executions
+	caRuns  map[string]int // ... per registration label
+	paRuns  map[string]int // pre-commit action executions per registration label
 	tc      int            // tx-complete listener executions
 	sig     chan struct{}
 }
@@ -177,7 +184,7 @@ func openC08Db(w *wiring, dir string) (*c08Db, error) {
 	if err != nil {
 		return nil, err
 	}
-	c := &c08Db{h: h, evCount: map[string]int{}, sig: make(chan struct{}, 1)}
+	c := &c08Db{h: h, evCount: map[string]int{}, caRuns: map[string]int{}, paRuns: map[string]int{}, sig: make(chan struct{}, 1)}
 	for _, def := range w.Stores {
 		gs := h.stores[def.Name]
 		store := def.Name
@@ -240,16 +247,17 @@ func (s *c08Seg) String() string {
 	return sb.String()
 }
 
-// drain returns the tokens recorded so far and resets the recorder
-func (c *c08Db) drain() ([]string, int, int) {
+// drain returns the tokens and hook executions recorded so far and resets the recorder
+func (c *c08Db) drain() ([]string, map[string]int, map[string]int, int) {
 	c.mu.Lock()
 	defer c.mu.Unlock()
 	toks := c.toks
-	ca, tc := c.ca, c.tc
+	ca, pa, tc := c.caRuns, c.paRuns, c.tc
 	c.toks, c.nAsync, c.ca, c.tc = nil, 0, 0, 0
+	c.caRuns, c.paRuns = map[string]int{}, map[string]int{}
 	c.evCount = map[string]int{}
 	sort.Strings(toks)
-	return toks, ca, tc
+	return toks, ca, pa, tc
 }
 
 // await blocks until the asynchronous deliveries implied by the synchronously observed events and the
@@ -298,9 +306,164 @@ func (c *c08Db) await(committed bool, nActions int) bool {
 	return ok
 }
 
+// ---------------------------------------------------------------- hook programs
+//
+// The hook program of a transaction is one token over the alphabet
+//
+//	c   ctx.AddCommitAction(<recording action>)                  label c<k>, k = index among the c's
+//	p   ctx.AddPreCommitAction(<recording action returning nil>)  label p<k>, k = index among p f q
+//	f   ctx.AddPreCommitAction(<recording action that fails>)     label p<k>
+//	q   ctx.AddPreCommitAction(<recording action that calls ctx.AddCommitAction(<recording action q<k>>)>), label p<k>
+//	|   the transaction starts: db.Update(ctx, body) (mode upd, swl) / db.Batch(ctx, body) (mode bat);
+//	    what precedes it is done on the context object returned by NewMutateContext while ctx.Tx() == nil
+//	.   the next operation of the transaction (TX section of the case line)
+//	u   db.Update(ctx, func..) with the context of the running transaction: joins it; closed by )
+//	b   db.Batch(ctx, func..) likewise
+//	)   end of the nested function
+//
+// Operations the program has no '.' for run at the end of the outermost function.  The program of a
+// history without HOOKS section is c08DefaultProg: what every transaction registered before programs
+// existed.
+func c08DefaultProg(t *hTx) string {
+	s := "|cp"
+	if t.PreCommitErr {
+		s += "f"
+	}
+	return s + strings.Repeat(".", len(t.Ops)) + "c"
+}
+
+type c08Exec struct {
+	c    *c08Db
+	t    *hTx
+	mode string
+	prog string
+
+	results  []string
+	opIdx    int
+	nC, nP   int      // label counters
+	regC     []string // labels of the commit actions registered so far (incl. those a q action will add)
+	regP     []string
+	bodyDone bool // the outermost function ran to its end
+}
+
+func (x *c08Exec) commitAction(label string) func() {
+	c := x.c
+	return func() {
+		c.mu.Lock()
+		c.ca++
+		c.caRuns[label]++
+		c.mu.Unlock()
+		c.signal()
+	}
+}
+
+// register carries out one of c p f q on the context
+func (x *c08Exec) register(ctx boltz.MutateContext, ch byte) {
+	c := x.c
+	switch ch {
+	case 'c':
+		label := fmt.Sprintf("c%d", x.nC)
+		x.nC++
+		x.regC = append(x.regC, label)
+		ctx.AddCommitAction(x.commitAction(label))
+	case 'p', 'f', 'q':
+		label := fmt.Sprintf("p%d", x.nP)
+		qlabel := fmt.Sprintf("q%d", x.nP)
+		x.nP++
+		x.regP = append(x.regP, label)
+		if ch == 'q' {
+			x.regC = append(x.regC, qlabel)
+		}
+		ctx.AddPreCommitAction(func(actx boltz.MutateContext) error {
+			c.mu.Lock()
+			c.paRuns[label]++
+			c.mu.Unlock()
+			switch ch {
+			case 'f':
+				return errors.New("pre-commit action failed")
+			case 'q':
+				actx.AddCommitAction(x.commitAction(qlabel))
+			}
+			return nil
+		})
+	}
+}
+
+// op runs the next operation of the transaction; done = the function has to return err
+func (x *c08Exec) op(ctx boltz.MutateContext) (err error, done bool) {
+	if x.opIdx >= len(x.t.Ops) {
+		return nil, false
+	}
+	h := x.c.h
+	i := x.opIdx
+	x.opIdx++
+	h.mu.Lock()
+	raisedBefore := h.raised
+	h.mu.Unlock()
+	e := h.execOp(ctx, &x.t.Ops[i])
+	if e != nil && x.mode == "swl" {
+		// a caller that handles the veto of an entity constraint and carries on
+		h.mu.Lock()
+		vetoed := h.raised > raisedBefore
+		h.mu.Unlock()
+		if vetoed {
+			x.results = append(x.results, "swallowed")
+			return nil, false
+		}
+	}
+	x.results = append(x.results, classify(e))
+	return e, e != nil
+}
+
+// items interprets the program from pos inside a function running in the transaction; it returns the
+// position after the function's closing ')' (or the end of the program)
+func (x *c08Exec) items(ctx boltz.MutateContext, pos int, depth int) (int, error) {
+	for pos < len(x.prog) {
+		ch := x.prog[pos]
+		pos++
+		switch ch {
+		case ')':
+			if depth > 0 {
+				return pos, nil
+			}
+		case '.':
+			if err, done := x.op(ctx); done {
+				return pos, err
+			}
+		case 'c', 'p', 'f', 'q':
+			x.register(ctx, ch)
+		case 'u', 'b':
+			// the usual helper that works with or without an open transaction: called with the context
+			// of the running one it joins it
+			call := x.c.h.db.Update
+			if ch == 'b' {
+				call = x.c.h.db.Batch
+			}
+			after := len(x.prog)
+			err := call(ctx, func(nctx boltz.MutateContext) error {
+				var e error
+				after, e = x.items(nctx, pos, depth+1)
+				return e
+			})
+			if err != nil {
+				return after, err
+			}
+			pos = after
+		}
+	}
+	if depth == 0 {
+		for x.opIdx < len(x.t.Ops) {
+			if err, done := x.op(ctx); done {
+				return pos, err
+			}
+		}
+	}
+	return pos, nil
+}
+
 // runTx executes one transaction (mode upd = Db.Update, bat = Db.Batch, swl = Db.Update with a caller
-// that swallows constraint vetoes and commits anyway) and returns its observation
-func (c *c08Db) runTx(t *hTx, mode string) *c08Seg {
+// that swallows constraint vetoes and commits anyway) under its hook program and returns its observation
+func (c *c08Db) runTx(t *hTx, mode, prog string) *c08Seg {
 	h := c.h
 	h.mu.Lock()
 	h.vetoes = map[string]bool{}
@@ -311,60 +474,36 @@ func (c *c08Db) runTx(t *hTx, mode string) *c08Seg {
 	h.raised = 0
 	h.mu.Unlock()
 
-	var results []string
 	ctx := boltz.NewMutateContext(context.Background())
 	if t.Sys {
 		ctx = ctx.GetSystemContext()
 	}
-	nActions := 0
+	x := &c08Exec{c: c, t: t, mode: mode, prog: prog}
+	// on the context object, before the transaction exists
+	start := strings.IndexByte(prog, '|')
+	for k := 0; k < start; k++ {
+		x.register(ctx, prog[k])
+	}
+	preC, preP, preRegC, preRegP := x.nC, x.nP, len(x.regC), len(x.regP)
 	body := func(ctx boltz.MutateContext) (err error) {
 		// bbolt's Batch re-runs a failed function on its own: start from scratch
-		results = nil
-		nActions = 0
+		x.results, x.opIdx, x.bodyDone = nil, 0, false
+		x.nC, x.nP, x.regC, x.regP = preC, preP, x.regC[:preRegC], x.regP[:preRegP]
+		c.mu.Lock()
+		c.paRuns = map[string]int{}
+		c.mu.Unlock()
 		// a caller that swallowed a veto in the middle of a cascade works on a half-updated database;
 		// whatever boltz does then (also a nil dereference) only has to end in a rollback
 		defer func() {
 			if r := recover(); r != nil {
-				results = append(results, "PANIC")
+				x.results = append(x.results, "PANIC")
 				err = fmt.Errorf("panic in the transaction body: %v", r)
 			}
 		}()
-		action := func() {
-			c.mu.Lock()
-			c.ca++
-			c.mu.Unlock()
-			c.signal()
+		if _, err = x.items(ctx, start+1, 0); err == nil {
+			x.bodyDone = true
 		}
-		ctx.AddCommitAction(action)
-		nActions++
-		// every transaction carries a pre-commit action; the failing one comes second
-		ctx.AddPreCommitAction(func(boltz.MutateContext) error { return nil })
-		if t.PreCommitErr {
-			ctx.AddPreCommitAction(func(boltz.MutateContext) error { return errors.New("pre-commit action failed") })
-		}
-		for i := range t.Ops {
-			h.mu.Lock()
-			raisedBefore := h.raised
-			h.mu.Unlock()
-			e := h.execOp(ctx, &t.Ops[i])
-			if e != nil && mode == "swl" {
-				// a caller that handles the veto of an entity constraint and carries on
-				h.mu.Lock()
-				vetoed := h.raised > raisedBefore
-				h.mu.Unlock()
-				if vetoed {
-					results = append(results, "swallowed")
-					continue
-				}
-			}
-			results = append(results, classify(e))
-			if e != nil {
-				return e
-			}
-		}
-		ctx.AddCommitAction(action)
-		nActions++
-		return nil
+		return err
 	}
 	var err error
 	if mode == "bat" {
@@ -372,12 +511,12 @@ func (c *c08Db) runTx(t *hTx, mode string) *c08Seg {
 	} else {
 		err = h.db.Update(ctx, body)
 	}
-	inTime := c.await(err == nil, nActions)
+	inTime := c.await(err == nil, len(x.regC))
 
 	seg := &c08Seg{}
 	var sb strings.Builder
 	sb.WriteString("TX R")
-	for _, r := range results {
+	for _, r := range x.results {
 		sb.WriteString(" " + r)
 	}
 	if err == nil {
@@ -396,9 +535,17 @@ func (c *c08Db) runTx(t *hTx, mode string) *c08Seg {
 		sb.WriteString(" " + e)
 	}
 	seg.head = sb.String()
-	toks, ca, tc := c.drain()
+	toks, ca, pa, tc := c.drain()
 	seg.other = append(seg.other, toks...)
-	seg.other = append(seg.other, fmt.Sprintf("CA:%d", ca), fmt.Sprintf("TC:%d", tc))
+	// commit: every registration with its executions.  Rollback: only what ran although it must not
+	// (commit actions: anything; pre-commit actions: anything when the function itself failed - when
+	// the function succeeded they are work inside the transaction that is then rolled back, and
+	// bbolt's Batch repeats it)
+	seg.other = append(seg.other, c08HookTokens("CA", x.regC, ca, err == nil)...)
+	if err == nil || !x.bodyDone {
+		seg.other = append(seg.other, c08HookTokens("PA", x.regP, pa, err == nil)...)
+	}
+	seg.other = append(seg.other, fmt.Sprintf("TC:%d", tc))
 	if !inTime {
 		seg.other = append(seg.other, "ASYNC-TIMEOUT")
 	}
@@ -412,42 +559,70 @@ func (c *c08Db) runTx(t *hTx, mode string) *c08Seg {
 	return seg
 }
 
-// runHistoryC08 executes a history on a fresh database; the transactions come from [next], which sees
-// the facts of the database after the previous transaction (the state-aware generator uses them to
-// bias its choices; a corpus / replay history ignores them).  Deliveries that arrive after their
-// transaction's observation was taken show up in the next segment (or as LATE tokens at the end).
-func runHistoryC08(w *wiring, next func(k int, facts []string) *hTx, mode, dir string) (string, string, []hTx, error) {
+func c08HookTokens(tag string, registered []string, runs map[string]int, committed bool) []string {
+	labels := map[string]bool{}
+	for l := range runs {
+		labels[l] = true
+	}
+	if committed {
+		for _, l := range registered {
+			labels[l] = true
+		}
+	}
+	var out []string
+	for l := range labels {
+		if committed || runs[l] > 0 {
+			out = append(out, fmt.Sprintf("%s:%s:%d", tag, l, runs[l]))
+		}
+	}
+	sort.Strings(out)
+	return out
+}
+
+// runHistoryC08 executes a history on a fresh database; the transactions and their hook programs come
+// from [next], which sees the facts of the database after the previous transaction (the state-aware
+// generator uses them to bias its choices; a corpus / replay history ignores them).  Deliveries that
+// arrive after their transaction's observation was taken show up in the next segment (or as LATE tokens
+// at the end).
+func runHistoryC08(w *wiring, next func(k int, facts []string) (*hTx, string), mode, dir string) (string, string, []hTx, []string, error) {
 	c, err := openC08Db(w, dir)
 	if err != nil {
-		return "", "", nil, err
+		return "", "", nil, nil, err
 	}
 	defer c.h.close()
 	var cs strings.Builder
-	fmt.Fprintf(&cs, "MODE %s %s", mode, w.text())
 	var segs []*c08Seg
 	var txs []hTx
+	var progs []string
 	var facts []string
 	for k := 0; ; k++ {
-		t := next(k, facts)
+		t, prog := next(k, facts)
 		if t == nil {
 			break
 		}
+		if prog == "" {
+			prog = c08DefaultProg(t)
+		}
 		txs = append(txs, *t)
+		progs = append(progs, prog)
 		cs.WriteString(" ")
 		cs.WriteString(w.txText(t))
-		seg := c.runTx(t, mode)
+		seg := c.runTx(t, mode, prog)
 		facts = seg.facts
 		segs = append(segs, seg)
 	}
 	if len(segs) > 0 {
 		time.Sleep(2 * time.Millisecond)
-		toks, ca, tc := c.drain()
+		toks, ca, pa, tc := c.drain()
 		last := segs[len(segs)-1]
 		for _, t := range toks {
 			last.other = append(last.other, "LATE:"+t)
 		}
-		if ca > 0 {
-			last.other = append(last.other, fmt.Sprintf("LATE:CA:%d", ca))
+		for _, t := range c08HookTokens("CA", nil, ca, false) {
+			last.other = append(last.other, "LATE:"+t)
+		}
+		for _, t := range c08HookTokens("PA", nil, pa, false) {
+			last.other = append(last.other, "LATE:"+t)
 		}
 		if tc > 0 {
 			last.other = append(last.other, fmt.Sprintf("LATE:TC:%d", tc))
@@ -457,16 +632,39 @@ func runHistoryC08(w *wiring, next func(k int, facts []string) *hTx, mode, dir s
 	for _, s := range segs {
 		o.WriteString(s.String())
 	}
-	return cs.String(), o.String(), txs, nil
+	head := fmt.Sprintf("MODE %s HOOKS %d %s %s", mode, len(progs), strings.Join(progs, " "), w.text())
+	return head + cs.String(), o.String(), txs, progs, nil
 }
 
-func c08FixedHistory(txs []hTx) func(int, []string) *hTx {
-	return func(k int, _ []string) *hTx {
+func c08FixedHistory(txs []hTx, progs []string) func(int, []string) (*hTx, string) {
+	return func(k int, _ []string) (*hTx, string) {
 		if k >= len(txs) {
-			return nil
+			return nil, ""
 		}
-		return &txs[k]
+		if k < len(progs) {
+			return &txs[k], progs[k]
+		}
+		return &txs[k], ""
 	}
+}
+
+// c08SplitHead takes "MODE <m> [HOOKS <n> <prog>...]" off a case line
+func c08SplitHead(line string) (mode string, progs []string, rest string) {
+	mode = "upd"
+	if strings.HasPrefix(line, "MODE ") {
+		parts := strings.SplitN(line, " ", 3)
+		mode, line = parts[1], parts[2]
+	}
+	if strings.HasPrefix(line, "HOOKS ") {
+		parts := strings.SplitN(line, " ", 3)
+		var n int
+		fmt.Sscanf(parts[1], "%d", &n)
+		rest := strings.SplitN(parts[2], " ", n+1)
+		if len(rest) == n+1 {
+			return mode, rest[:n], rest[n]
+		}
+	}
+	return mode, nil, line
 }
 
 func runC08(o *opts) error {
@@ -485,7 +683,10 @@ func runC08(o *opts) error {
 		nb = o.getInt("nbatch", o.n/12)
 		nsw = o.getInt("nswallow", o.n/12)
 	}
-	account := func(w *wiring, mode string, txs []hTx, obs string) {
+	account := func(w *wiring, mode string, txs []hTx, progs []string, obs string) {
+		for _, p := range progs {
+			c08ProgStats(stats, p)
+		}
 		stats["histories"]++
 		stats["mode_"+mode]++
 		stats["wiring_"+w.Name]++
@@ -519,16 +720,12 @@ func runC08(o *opts) error {
 			if line == "" || strings.HasPrefix(line, "#") {
 				continue
 			}
-			mode := "upd"
-			if strings.HasPrefix(line, "MODE ") {
-				parts := strings.SplitN(line, " ", 3)
-				mode, line = parts[1], parts[2]
-			}
+			mode, progs, line := c08SplitHead(line)
 			w, txs, err := parseCase(line)
 			if err != nil {
 				return fmt.Errorf("corpus %s: %v", cp, err)
 			}
-			cl, obs, _, err := runHistoryC08(w, c08FixedHistory(txs), mode, tmp)
+			cl, obs, _, _, err := runHistoryC08(w, c08FixedHistory(txs, progs), mode, tmp)
 			if err != nil {
 				return err
 			}
@@ -557,22 +754,22 @@ func runC08(o *opts) error {
 		w.derive()
 		g := newC08Gen(r, w)
 		nTx := 2 + r.intn(5)
-		cl, obs, txs, err := runHistoryC08(w, func(k int, facts []string) *hTx {
+		cl, obs, txs, progs, err := runHistoryC08(w, func(k int, facts []string) (*hTx, string) {
 			if k >= nTx {
-				return nil
+				return nil, ""
 			}
 			t := g.genTx(facts)
 			if mode == "swl" && len(t.Vetoes) == 0 {
 				g.addVeto(t)
 			}
-			return t
+			return t, g.genProg(t, mode)
 		}, mode, tmp)
 		if err != nil {
 			return err
 		}
 		cases.line("%s", cl)
 		impl.line("%s", obs)
-		account(w, mode, txs, obs)
+		account(w, mode, txs, progs, obs)
 	}
 	writeJSON(o.out, "stats.json", stats)
 	fmt.Fprintf(os.Stderr, "c08: %d histories (%d through Db.Batch, %d with swallowed vetoes)\n", n+nb+nsw, nb, nsw)
